@@ -286,6 +286,22 @@ def bounded_retry(ctx):
             and not isinstance(it.args[0], ast.Constant)
         bound = norm(it.args[0]) if ok else norm(getattr(rl.loop, 'test', None))
         ok = ok and ('attempt' in bound.lower())
+        if not ok and isinstance(rl.loop, ast.While):
+            # counted while: k = 0; while k < attempts: ...; k += 1 on every way back to the loop head
+            t = rl.loop.test
+            if isinstance(t, ast.Compare) and len(t.ops) == 1 and isinstance(t.ops[0], ast.Lt) and isinstance(t.left, ast.Name) and 'attempt' in norm(t.comparators[0]).lower():
+                k = t.left.id
+                g = ctx.cfg(f)
+                head = [n for n in g.nodes if n.kind == 'while' and n.stmt is rl.loop]
+                incs = [n for x in ast.walk(rl.loop) if isinstance(x, ast.AugAssign) and isinstance(x.op, ast.Add) and norm(x.target) == k and norm(x.value) == '1'
+                        and q.in_loop(x) is rl.loop for n in g.nodes_of(x)]
+                inits = [v for st, v in q.local_defs(f, k) if isinstance(st, ast.Assign) and not any(a is rl.loop for a in ancestors(st))]
+                others = [st for st, v in q.local_defs(f, k) if any(a is rl.loop for a in ancestors(st)) and not (isinstance(st, ast.AugAssign))]
+                first = [b for h in head for b, l in g.succ[h] if l == 't']
+                ok = bool(head) and bool(incs) and len(inits) == 1 and norm(inits[0]) == '0' and not others \
+                    and not (set(head) & g.reach(first, avoid=incs, include_src=True)) \
+                    and len([x for x in ast.walk(rl.loop) if isinstance(x, ast.AugAssign) and norm(x.target) == k]) == len({id(n.ast) for n in incs})
+                bound = norm(t.comparators[0])
         ctx.ob(f, f'retry loop over {short(it) if it is not None else "while " + bound}', ok,
                'stream retries must be bounded by the attempts setting (for _ in range(attempts))')
         names = retryable_names(ctx, f, rl.handler)
